@@ -103,6 +103,12 @@ def obj_float(name):
         return lambda x: np.where(sphere(x) >= 6.0, np.inf, sphere(x))
     if name == "fail_lo":
         return lambda x: np.where(np.asarray(x, dtype=np.float64)[:, 0] > 1.5, -np.inf, -sphere(x))
+    if name == "fail_nan":  # failed evaluations reported as NaN (a trial rated NaN is never accepted); the first batch - the initial
+        calls = [0]         # population - is rated throughout (a record cannot be started from NaN ratings)
+        def fail_nan(x):
+            calls[0] += 1
+            return -sphere(x) if calls[0] == 1 else np.where(np.asarray(x, dtype=np.float64)[:, 0] > 1.0, np.nan, -sphere(x))
+        return fail_nan
     if name == "inf":
         return lambda x: np.where(sphere(x) >= 9.0, np.inf, np.where(sphere(x) <= 1.5, -np.inf, sphere(x)))
     if name == "view":    # returns a VIEW of its argument (the first coordinate)
